@@ -161,6 +161,76 @@ def run(ctx):
         fn = mod.func("ubi_to_u_and_eps"); ctx.saw(mod, fn)
         where = core.loc(mod, fn)
         ubi = sym_array("ubi_matrix", (3, 3))
+        uses_qr = any(isinstance(n_, ast.Call) and isinstance(n_.func, ast.Attribute) and n_.func.attr == "qr" for n_ in ast.walk(fn))
+        if uses_qr:
+            # alternative realisation: (U, B) from a QR factorisation of tau*inv(UBI) with a sign normalisation.
+            # Obligation on all eight sign patterns of diag(R): U == Q.D, the matrix handed on == D.R, QR argument == tau*inv(UBI)
+            import itertools
+            okq = True
+            why = ""
+            for pattern in itertools.product((False, True), repeat=3):
+                log = []
+                ev = Evaluator(mod, inline=set(), call_policy=pol_factory(log), branch_policy=N.skip_checks_policy)
+                qarg = []
+                Q = sym_array("Q", (3, 3)); Rm = sym_array("R", (3, 3))
+                orig = ev._np_call
+
+                def hook(name, args, kwargs, node, orig=orig, qarg=qarg, Q=Q, Rm=Rm):
+                    if name == "linalg.qr":
+                        qarg.append(args[0])
+                        return (materialise(Q), Arr([[Rat.atom("R[%d,%d]" % (i, j)) if j >= i else Rat.const(0) for j in range(3)] for i in range(3)]))
+                    return orig(name, args, kwargs, node)
+                ev._np_call = hook
+
+                def sgn(x, node, pattern=pattern):
+                    from xfabsa.poly import single_atom
+                    a_ = single_atom(x)
+                    for k in range(3):
+                        if a_ == "R[%d,%d]" % (k, k):
+                            return Rat.const(-1 if pattern[k] else 1)
+                    raise AnalysisError("sign() of `%s`, not of a diagonal entry of the triangular factor" % x.key()[:40])
+                ev.sign_of = sgn
+
+                def bpol2(test, e_, env_, pattern=pattern):
+                    if N.skip_checks_policy(test, e_, env_) is False:
+                        return False
+                    if isinstance(test, ast.Compare) and len(test.ops) == 1 and isinstance(test.comparators[0], ast.Constant) \
+                            and test.comparators[0].value == 0 and isinstance(test.ops[0], (ast.Lt, ast.LtE, ast.Gt, ast.GtE)):
+                        from xfabsa.poly import single_atom
+                        a_ = single_atom(scalar(e_.eval(test.left, env_)))
+                        for k in range(3):
+                            if a_ == "R[%d,%d]" % (k, k):
+                                return pattern[k] if isinstance(test.ops[0], (ast.Lt, ast.LtE)) else not pattern[k]
+                    return None
+                ev.branch_policy = bpol2
+                out = ev.call_function("ubi_to_u_and_eps", [ubi, cell])
+                bcalls = [a for n_, a in log if n_ == "b_to_epsilon"]
+                if len(qarg) != 1 or len(bcalls) != 1 or not (isinstance(out, tuple) and len(out) == 2):
+                    okq, why = False, "expected one qr factorisation, one b_to_epsilon call and a (U, eps) result"
+                    break
+                want_arg = N.ref("inv(X)*tau", {"X": ubi, "tau": tau})
+                fa = [scalar(x) for x in (qarg[0] if isinstance(qarg[0], Arr) else materialise(qarg[0])).flat()]
+                fw = [scalar(x) for x in (want_arg if isinstance(want_arg, Arr) else materialise(want_arg)).flat()]
+                if not all(x.equals(y) for x, y in zip(fa, fw)):
+                    okq, why = False, "the matrix factorised is not tau*inv(UBI)"
+                    break
+                Uo = [scalar(x) for x in (out[0] if isinstance(out[0], Arr) else materialise(out[0])).flat()]
+                Bo = [scalar(x) for x in (bcalls[0][0] if isinstance(bcalls[0][0], Arr) else materialise(bcalls[0][0])).flat()]
+                for i in range(3):
+                    for j in range(3):
+                        sj = -1 if pattern[j] else 1
+                        si = -1 if pattern[i] else 1
+                        if not Uo[3 * i + j].equals(sj * Rat.atom("Q[%d,%d]" % (i, j))):
+                            okq, why = False, "U is not Q.D for diag(R) signs %s" % (["-" if p_ else "+" for p_ in pattern],)
+                        want_b = si * Rat.atom("R[%d,%d]" % (i, j)) if j >= i else Rat.const(0)
+                        if not Bo[3 * i + j].equals(want_b):
+                            okq, why = False, ("the matrix handed to b_to_epsilon is not D.R (rows of the triangular factor must be "
+                                               "flipped with the columns of Q) for diag(R) signs %s" % (["-" if p_ else "+" for p_ in pattern],))
+                if not okq:
+                    break
+            ctx.check(okq, "C13:tau:%s.ubi_to_u_and_eps:qr-route" % short,
+                      "QR-based ubi_to_u_and_eps: %s" % why, where)
+            continue
         log = []
         out = Evaluator(mod, inline=set(), call_policy=pol_factory(log), branch_policy=N.skip_checks_policy) \
             .call_function("ubi_to_u_and_eps", [ubi, cell])
@@ -204,6 +274,8 @@ def run(ctx):
     ctx.not_decided += ["numerical accuracy of inv; that the two maps are mutual inverses follows on paper from the verified "
                         "equation (uniqueness of the triangular solution) and inv(inv(X)) = X"]
     ctx.assumptions += ["form_b_mat / form_a_mat_inv return upper-triangular matrices (C01)", "numpy dot, transpose, inv, eye"]
+    from xfabsa import numeric as _N2
+    _N2.hazard_rule(ctx, 'C13')
     return ("b_to_epsilon(_old) compared with sym(T) - I literally; the matrices built by epsilon_to_b(_old) shown to solve "
             "the stated equation entry by entry for symbolic strain and symbolic unstrained matrix (so for every cell and "
             "strain), and to reduce to the unstrained matrix at zero strain; ubi_to_u_and_eps's U and the matrix it passes "
